@@ -242,6 +242,13 @@ pub fn in_child<F: FnOnce() -> i32>(timeout: Duration, f: F) -> ChildRun {
                 Ok(c) => c,
                 Err(_) => 96,
             };
+            #[cfg(feature = "cov")]
+            {
+                extern "C" {
+                    fn __llvm_profile_write_file() -> i32;
+                }
+                __llvm_profile_write_file();
+            }
             libc::_exit(code);
         }
         libc::close(fds[1]);
